@@ -127,6 +127,14 @@ func checkTile(c *mc.Ctx, t maptile.Tile, bounds bool) {
 		if !(b.Min[0] < b.Max[0] && b.Min[1] < b.Max[1]) || b.Min[0] < -180 || b.Max[0] > 180 || b.Min[1] < -85.06 || b.Max[1] > 85.06 {
 			c.Failf("bound", "%v bound %v", t, b)
 		}
+		// absolute anchor: the edges by the check's own closed forms of the web-mercator tiling
+		n := math.Ldexp(1, int(z))
+		lat := func(y float64) float64 { return math.Atan(math.Sinh(math.Pi*(1-2*y/n))) * 180 / math.Pi }
+		wx0, wx1 := float64(t.X)/n*360-180, float64(t.X+1)/n*360-180
+		wy0, wy1 := lat(float64(t.Y+1)), lat(float64(t.Y))
+		if math.Abs(b.Min[0]-wx0) > 1e-9 || math.Abs(b.Max[0]-wx1) > 1e-9 || math.Abs(b.Min[1]-wy0) > 1e-9 || math.Abs(b.Max[1]-wy1) > 1e-9 {
+			c.Failf("bound-anchor", "%v bound %v, closed form [%v %v] [%v %v]", t, b, wx0, wy0, wx1, wy1)
+		}
 		if at := maptile.At(t.Center(), t.Z); at != t {
 			cl := "centre"
 			if ctr := t.Center(); math.Abs(ctr[1]) > 85.0511 && at.X == t.X && (at.Y == 0 || at.Y == 1<<z-1) {
@@ -237,6 +245,19 @@ func checkPoint(c *mc.Ctx, p orb.Point, z maptile.Zoom) {
 	default:
 		if p[1] < b.Min[1]-pad || p[1] > b.Max[1]+pad {
 			c.Failf("at-bound", "At(%v, %d) = %v whose bound %v does not contain the latitude", p, z, t, b)
+		}
+	}
+	// absolute anchor: the check's own projection, away from tile edges
+	n := math.Ldexp(1, int(z))
+	fx := (p[0] + 180) / 360 * n
+	if p[0] >= -180 && p[0] < 180 && math.Abs(fx-math.Round(fx)) > 1e-6 && float64(t.X) != math.Floor(fx) {
+		c.Failf("at-anchor", "At(%v, %d) = %v, own projection says column %v", p, z, t, math.Floor(fx))
+	}
+	if math.Abs(p[1]) < 85.05 {
+		rad := p[1] * math.Pi / 180
+		fy := (1 - math.Log(math.Tan(rad)+1/math.Cos(rad))/math.Pi) / 2 * n
+		if math.Abs(fy-math.Round(fy)) > 1e-6 && float64(t.Y) != math.Floor(fy) {
+			c.Failf("at-anchor", "At(%v, %d) = %v, own projection says row %v", p, z, t, math.Floor(fy))
 		}
 	}
 }
